@@ -38,9 +38,12 @@ where
     self.fn_next.call_if_available(x);
   }
   pub fn error(&self, x: RxError) {
-    if self.fn_error.call_and_clear_if_available(x).is_some() {
+    // both terminals compete for the complete slot: whoever empties it is
+    // the one terminal delivered, also when error and complete race on two
+    // threads
+    if self.fn_complete.clear_if_available() {
       self.fn_next.clear();
-      self.fn_complete.clear();
+      self.fn_error.call_and_clear_if_available(x);
     }
   }
   pub fn complete(&self) {
